@@ -9,7 +9,9 @@ RULE = ("typestate on data_half_used (H) by value numbering with gen_entropy kep
         "next_u64 stored to data) and flips H; (R4) next_u64 clears H before exactly one gen_entropy and returns its value; (R5) gen_entropy's "
         "rounds loop runs i in 0..rounds and every iteration passes through at least one timer read; (R6) clone yields H = false; (R7) for "
         "every other output entry point (fill_bytes through rand_core's fill_bytes_via_next, evaluated for each constant length 1..=24) the "
-        "bytes produced must not depend on the pending half and a collection must happen")
+        "bytes produced must not depend on the pending half and a collection must happen; (R8) over every ordered pair of output calls "
+        "(next_u32, next_u64, fill_bytes(n)), starting with and without a pending half, no bit of a collected value or of the stored pool is "
+        "exposed by two output positions (gen_entropy opaque with its post-condition ret = self.data from C12.R8)")
 EXPLANATION = ("Decides the half bookkeeping exactly; the quantifier over timer sequences is vacuous for these rules because timer values never "
                "influence H. One known finding (fill_bytes of 1..=4 bytes consumes a pending half by design) is listed in known_findings.json.")
 
@@ -180,10 +182,8 @@ def run(chk, tier):
         r = found[0]
         chk.ob("R5", "gen_entropy|every round passes through at least one timer read", r.min_ticks >= 1,
                "minimum timer reads per round on any path: %d" % r.min_ticks, where=crate.bodies[genkey]["span"][0])
-    # ---- R7 other output entry points: fill_bytes for constant lengths
-    fkey = next((k for k in crate.bodies if k.startswith("rand_core::impls::fill_bytes_via_next::<rand_jitter::JitterRng<")), None)
-    if fkey is None:
-        raise Anchor("fill_bytes_via_next::<JitterRng<F>> not in facts")
+    # ---- R7 other output entry points: the type's own fill_bytes for constant lengths
+    fkey = g.method(RNGCORE, "fill_bytes")
     chk.body(fkey)
     nmax = 24 if tier == "thorough" else 12
     for n in range(1, nmax + 1):
@@ -200,10 +200,109 @@ def run(chk, tier):
         out = st.objs[doid]
         uses_pending = any(direct_dep(out.get(i), data) for i in range(n))
         ok7 = not uses_pending
+        if n == 0:
+            pass
         chk.ob("R7", "fill_bytes(%d)|output does not contain a pending half" % n, ok7,
                "" if ok7 else "with data_half_used set, the first bytes are the stored high half of `data` (no collection)",
                key=KNOWN_KEY if (not ok7 and n <= 4) else None, where=crate.bodies[g.method(RNGCORE, "fill_bytes")]["span"][0],
                sample={"len": n, "depends_on_pending_half": uses_pending} if n in (4, 5) else None)
+    _run_r8(chk, crate, g, genkey, iD, iH, tier)
+
+
+def exposure(t, acc):
+    """which bits of which collected values / of the stored pool does the output term t expose directly?
+    acc: {atom: [mask, ...]} one mask per output position"""
+    pos = {}
+    _exposure(t, pos)
+    for a, m in pos.items():
+        acc.setdefault(a, []).append(m)
+
+
+def _exposure(t, pos):
+    if not isinstance(t, T.T) or t.op == "const":
+        return
+    c, e = T.aff_parts(t)
+    for a, p in e.items():
+        if a.op == "ite":  # either arm may be what is handed out
+            _exposure(a.args[1], pos)
+            _exposure(a.args[2], pos)
+            continue
+        m = 0
+        for j, col in enumerate(T.cols(p, t.w, a.w)):
+            if col:
+                m |= 1 << j
+        pos[a] = pos.get(a, 0) | m
+
+
+def gen_entropy_override(genkey, iD, iH):
+    """gen_entropy kept opaque, with two facts made explicit: it returns self.data (C12.R8) and it is not a writer of
+    data_half_used (R1)"""
+    def h(ev, st, ctx):
+        ref = ctx.args[0]
+        h0 = ev.load(st, ref).fields[iH]
+        ret = P.opaque_call(ev, st, ctx, "no-inline")
+        v = ev.load(st, ref)
+        fs = list(v.fields)
+        fs[iD] = ret
+        fs[iH] = h0
+        ev.store(st, ref, Struct(fs))
+        return ret
+    return h
+
+
+def check_at_most_once(chk, crate, g, genkey, iD, iH, tier):
+    """R8: over every pair of output calls, no bit of a collected 64-bit value (or of the stored pool) is handed out twice"""
+    k32, k64, kfb = g.method(RNGCORE, "next_u32"), g.method(RNGCORE, "next_u64"), g.method(RNGCORE, "fill_bytes")
+    lens = [1, 4, 5, 8, 12, 16] if tier == "quick" else [1, 2, 3, 4, 5, 7, 8, 9, 12, 13, 16, 20, 24]
+    ops = [("next_u32", None), ("next_u64", None)] + [("fill_bytes", n) for n in lens]
+    npairs = 0
+    for Hval in (False, True):
+        for a in ops:
+            for b in ops:
+                ev = crate.evaluator()
+                ev.overrides[genkey] = gen_entropy_override(genkey, iD, iH)
+                st = State()
+                ref, oid, v = sym_jitter(ev, st, g)
+                data = v.fields[iD]
+                fs = list(v.fields)
+                fs[iH] = T.TRUE if Hval else T.FALSE
+                st.objs[oid] = Struct(fs)
+                outs = []
+                label = []
+                try:
+                    for name, n in (a, b):
+                        if name == "fill_bytes":
+                            dest = ArrV(n, 8, None, None, {i: T.sym("dest[%d]" % i, 8) for i in range(n)})
+                            doid = st.alloc(dest, "dest")
+                            ev.call_body(st, kfb, [ref, Ref(doid, (), (0, n), True)])
+                            outs.extend(st.objs[doid].get(i) for i in range(n))
+                            label.append("fill_bytes(%d)" % n)
+                        else:
+                            outs.append(ev.call_body(st, k32 if name == "next_u32" else k64, [ref]))
+                            label.append(name)
+                except (Unsupported, SymbolicLoop, Diverged) as e:
+                    chk.ob("R8", "%s; %s [half pending: %s]" % (a, b, Hval), False, "not established: %s" % e)
+                    continue
+                npairs += 1
+                acc = {}
+                for o in outs:
+                    exposure(o, acc)
+                bad = []
+                for atom, masks in acc.items():
+                    seen = 0
+                    for m in masks:
+                        if seen & m:
+                            bad.append("%s bits %#x handed out twice" % (T.show(atom, 1), seen & m))
+                        seen |= m
+                    if atom is data:
+                        allowed = (0xFFFFFFFF << 32) if Hval else 0
+                        if seen & ~allowed:
+                            bad.append("stored pool bits %#x (already handed out earlier) are output again" % (seen & ~allowed & T.mask(64)))
+                ok = not bad
+                chk.ob("R8", "%s; %s [half pending at start: %s]|every collected bit handed out at most once" % (label[0], label[1], Hval),
+                       ok, "; ".join(bad[:2]), where=crate.bodies[kfb]["span"][0], nontrivial=True,
+                       sample={"sequence": label, "pending_at_start": Hval, "distinct_values_exposed": len(acc)} if npairs in (3, 40) else None)
+    chk.floor("R8", "output-call pairs", npairs, 2 * len(ops) * len(ops))
 
 
 def direct_dep(t, target):
@@ -225,6 +324,13 @@ def direct_dep(t, target):
                     stack.append(T._ATOM[i])
         stack.extend(x.args)
     return False
+
+
+def _run_r8(chk, crate, g, genkey, iD, iH, tier):
+    try:
+        check_at_most_once(chk, crate, g, genkey, iD, iH, tier)
+    except Anchor as e:
+        chk.ob("R8", "at-most-once", False, str(e))
 
 
 def _atoms(t):
